@@ -1037,6 +1037,35 @@ def gen_variant(rng, ops, candidates):
     return None
 
 
+LONG_UNITS = [("ä", 1100), ("a b", 400), ("é", 1400), ("x y/", 600), ("%2f", 500), ("я", 700), ("a", 1200), ("😀", 1030)]
+
+
+def longify(rng, op, scale=1.0):
+    """Replace one text argument by a long one (1000+ characters, quoted size up to and beyond
+    the compiled quoter's 8 KiB static buffer).  Few distinct texts on purpose: threads collide."""
+    name = op["op"]
+    unit, n = rng.choice(LONG_UNITS)
+    n = max(20, int(n * scale)) + rng.choice([0, 0, 1, -1])
+    args = op.get("args") or []
+    noslash = unit.replace("/", "_")
+    if name == "with_path" and args:
+        args[0] = {"$": "text", "pre": "/", "v": [[unit, n]]}
+    elif name in ("with_fragment", "with_query", "extend_query", "update_query", "mod") and args and isinstance(args[0], str):
+        args[0] = {"$": "text", "v": [[unit, n]]}
+    elif name in ("with_user", "with_password", "truediv", "with_name", "joinpath") and args and isinstance(args[0], str):
+        args[0] = {"$": "text", "v": [[noslash, n]]}
+    elif name == "new" and args and isinstance(args[0], str) and not (op.get("kwargs") or {}).get("encoded"):
+        kind = rng.choice(["path", "query", "fragment"])
+        pre = {"path": "http://h/", "query": "http://h/p?q=", "fragment": "http://h/p#"}[kind]
+        args[0] = {"$": "text", "pre": pre, "v": [[unit, n]]}
+    elif name == "build" and isinstance(op.get("kwargs"), dict) and not op["kwargs"].get("encoded"):
+        which = rng.choice(["path", "fragment", "query_string"])
+        if which == "query_string" and "query" in op["kwargs"]:
+            which = "fragment"
+        op["kwargs"][which] = {"$": "text", "pre": "/" if which == "path" else "", "v": [[unit, n]]}
+    return op
+
+
 def closure(ops, k):
     """Indices of ops needed to rebuild the operands of op k (plus k), in order."""
     need = set()
